@@ -14,7 +14,7 @@ PROP = {
     'harness_timeout': 6000,
     'replay_header': C08_HEADER,
     'replay_footer': "Eval vm_compute in (failing agrees base_index cases).\nEval vm_compute in (failing c08_ok base_index cases).",
-    'stats_keys': ['target_ca', 'strict', 'strict_atomic', 'mutation_traces', 'atomic_alike_broken_cases', 'candidate_findings', 'timing_s'],
+    'stats_keys': ['target_ca', 'strict', 'strict_atomic', 'mutation_traces', 'atomic_alike_broken_cases', 'candidate_findings', 'scenario_wall_s'],
     'assumptions': [
         'one key-value mutation is atomic (disk back-end: temp file + rename(2)); a crash falls BETWEEN two probe points (before every key-value mutation and before every file-system mutation of the publication server); torn writes inside one write(2) and fsync ordering are outside',
         'a crash is process::abort() in a worker subprocess followed by a fresh runtime on the surviving directory plus the daemon start-up sequence for the queue (reschedule_tasks_at_startup, QueueStartTasks); a failed write is one injected error at exactly one mutation on the running instance (a fatal scheduler error is followed by a restart, as process::exit(1) would be)',
